@@ -1143,8 +1143,8 @@ RULE_C14 = ('C14: (a) region cases (kind, left, body, right) for the kinds \'...
             'seeded random bodies of 3 letters over the full alphabet, each with the empty contexts and one seeded context '
             'pair.  thorough: all 3-letter bodies over the full alphabet and 1.5 M seeded 4-letter bodies.  Expected: exactly one '
             'token covers exactly the region and its type lies in the expected type.  (b) word cases (word, casing, left, '
-            'right): every key of the nine KEYWORDS* dictionaries that is a single word (795 of 799; DOUBLE PRECISION, '
-            'BIT VARYING, CHARACTER VARYING, END-EXEC are not words) and 40 non-dictionary names, in the casings upper, '
+            'right): every key of the nine KEYWORDS* dictionaries that some rule matches in full (796 of 799; BIT VARYING, '
+            'CHARACTER VARYING, END-EXEC are matched by no rule, hence not words) and 40 non-dictionary names, in the casings upper, '
             "lower, capitalised, alternating, in all 9 x 9 contexts from left {'', ' ', TAB, LF, '(', ')', ',', ';', '='} and "
             "right {'', ' ', TAB, LF, ')', ',', ';', '=', '+'} (a following '(' or '.' is deliberately not a delimited "
             'context: earlier rules turn the word into a Name there).  Expected type: first rule of the real SQL_REGEX '
